@@ -136,21 +136,25 @@ theorem readBody_capability (T : Tables) (q : Q) (rest : List Text) :
 /-- **The reference reader on a printed capability rule** — any qualifier, any list of names that are
 in the table and are simple words without `#` (checked for the whole regenerated table in `Props/C12`). -/
 theorem read_capability (T : Tables) (audit deny : Bool) (names : List Text)
-    (hs : ∀ n ∈ names, SimpleW n ∧ '#' ∉ n)
+    (hs : ∀ n ∈ names, SimpleW n ∧ '#' ∉ n ∧ n.getLast? ≠ some ',')
     (hm : ∀ n ∈ names, (reqValues T "capability" "name").contains n = true) :
     read T (renderRule (capRule audit deny names) (padOf [])) =
       some (mkR "capability" { audit := audit, deny := deny, owner := false } [.l (sortedBy T "capability" "name" names)]) := by
   rw [render_capability]
-  have hws : ∀ w ∈ qualWords audit deny ++ S "capability" :: names, SimpleW w ∧ '#' ∉ w := by
+  have hws : ∀ w ∈ qualWords audit deny ++ S "capability" :: names, SimpleW w ∧ '#' ∉ w ∧ w.getLast? ≠ some ',' := by
     intro w hw
     rw [List.mem_append] at hw
     rcases hw with hw | hw
     · cases audit <;> cases deny <;> simp [qualWords] at hw
-      all_goals (first | (rcases hw with rfl | rfl) | subst hw) <;> exact ⟨⟨by decide, by decide⟩, by decide⟩
+      all_goals (first | (rcases hw with rfl | rfl) | subst hw) <;> exact ⟨⟨by decide, by decide⟩, by decide, by decide⟩
     · simp only [List.mem_cons] at hw
       rcases hw with rfl | hw
-      · exact ⟨⟨by decide, by decide⟩, by decide⟩
+      · exact ⟨⟨by decide, by decide⟩, by decide, by decide⟩
       · exact hs w hw
+  have hnc : (qualWords audit deny ++ S "capability" :: names).any (fun w => w.getLast? == some ',') = false := by
+    rw [List.any_eq_false]
+    intro w hw
+    simpa using (hws w hw).2.2
   have hne : qualWords audit deny ++ S "capability" :: names ≠ [] := by simp
   -- no '#' in the line
   have hnh : '#' ∉ joinB (qualWords audit deny ++ S "capability" :: names) ++ [','] := by
@@ -162,11 +166,11 @@ theorem read_capability (T : Tables) (audit deny : Bool) (names : List Text)
       | nil => simp [joinB] at hmem
       | cons a l ih =>
         cases l with
-        | nil => exact (hws a (by simp)).2 (by simpa [joinB] using hmem)
+        | nil => exact (hws a (by simp)).2.1 (by simpa [joinB] using hmem)
         | cons b l' =>
           simp only [joinB, List.mem_append, List.mem_cons] at hmem
           rcases hmem with h | h | h
-          · exact (hws a (by simp)).2 h
+          · exact (hws a (by simp)).2.1 h
           · cases h
           · exact ih (fun w hw => hws w (by simp [hw])) h
     · simp at hmem
@@ -174,6 +178,7 @@ theorem read_capability (T : Tables) (audit deny : Bool) (names : List Text)
   simp only [stripComment_nohash _ hnh, trimR_comma, List.getLast?_append, List.getLast?_singleton, Option.some_or,
     List.dropLast_concat]
   rw [words_joinB' _ hne (fun w hw => (hws w hw).1)]
+  simp only [hnc, Bool.false_eq_true, if_false]
   have hall : (names.all fun n => (reqValues T "capability" "name").contains n) = true := by
     rw [List.all_eq_true]; exact hm
   cases audit <;> cases deny <;>
@@ -266,19 +271,19 @@ word (starts with `/` or `@`, no blank, quote, parenthesis or `#`, accepted as a
 non-empty permission string without those characters: the reader finds the path exactly as the rule
 states it, and reads the permission string the printer wrote. -/
 theorem read_file (T : Tables) (audit deny owner : Bool) (p : Text) (acc : List Text)
-    (hp : PathHead p) (hps : SimpleW p ∧ '#' ∉ p) (hpt : isPathTok p = true)
-    (hm : SimpleW acc.flatten ∧ '#' ∉ acc.flatten) :
+    (hp : PathHead p) (hps : SimpleW p ∧ '#' ∉ p ∧ p.getLast? ≠ some ',') (hpt : isPathTok p = true)
+    (hm : SimpleW acc.flatten ∧ '#' ∉ acc.flatten ∧ acc.flatten.getLast? ≠ some ',') :
     read T (renderRule (fileRule audit deny owner p acc) (padOf [])) =
       (readMode T acc.flatten).map (fun a =>
         mkR "file" { audit := audit, deny := deny, owner := owner } [.b owner, .s p, .l a, .s []]) := by
   rw [render_file]
-  have hws : ∀ w ∈ fileWords audit deny owner ++ [p, acc.flatten], SimpleW w ∧ '#' ∉ w := by
+  have hws : ∀ w ∈ fileWords audit deny owner ++ [p, acc.flatten], SimpleW w ∧ '#' ∉ w ∧ w.getLast? ≠ some ',' := by
     intro w hw
     rw [List.mem_append] at hw
     rcases hw with hw | hw
     · cases audit <;> cases deny <;> cases owner <;> simp [fileWords, qualWords] at hw
       all_goals (first | (rcases hw with rfl | rfl | rfl) | (rcases hw with rfl | rfl) | subst hw) <;>
-        exact ⟨⟨by decide, by decide⟩, by decide⟩
+        exact ⟨⟨by decide, by decide⟩, by decide, by decide⟩
     · simp only [List.mem_cons, List.not_mem_nil, or_false] at hw
       rcases hw with rfl | rfl
       · exact hps
@@ -293,11 +298,11 @@ theorem read_file (T : Tables) (audit deny owner : Bool) (p : Text) (acc : List 
       | nil => simp [joinB] at hmem
       | cons a l ih =>
         cases l with
-        | nil => exact (hws a (by simp)).2 (by simpa [joinB] using hmem)
+        | nil => exact (hws a (by simp)).2.1 (by simpa [joinB] using hmem)
         | cons b l' =>
           simp only [joinB, List.mem_append, List.mem_cons] at hmem
           rcases hmem with h | h | h
-          · exact (hws a (by simp)).2 h
+          · exact (hws a (by simp)).2.1 h
           · cases h
           · exact ih (fun w hw => hws w (by simp [hw])) h
     · simp at hmem
@@ -305,6 +310,11 @@ theorem read_file (T : Tables) (audit deny owner : Bool) (p : Text) (acc : List 
   simp only [stripComment_nohash _ hnh, trimR_comma, List.getLast?_append, List.getLast?_singleton, Option.some_or,
     List.dropLast_concat]
   rw [words_joinB' _ hne (fun w hw => (hws w hw).1)]
+  have hnc : (fileWords audit deny owner ++ [p, acc.flatten]).any (fun w => w.getLast? == some ',') = false := by
+    rw [List.any_eq_false]
+    intro w hw
+    simpa using (hws w hw).2.2
+  simp only [hnc, Bool.false_eq_true, if_false]
   simp only [readQual_fileWords audit deny owner p [acc.flatten] hp, readBody_file T _ p _ hp hpt]
 
 end Ref
